@@ -117,6 +117,11 @@ type world struct {
 	armed     bool // traps active (first cycle only)
 	trapped   map[interface{}]bool
 	pub       int
+	// gate is closed (the channel, i.e. opened for the gatherers) once the harness holds the done
+	// channel of the cycle it just started: no gatherer attempt -- hence no scripted Close -- runs
+	// before that, so the harness never misses the end of the cycle and never disarms the traps
+	// while the gather goroutine is still working through the script.
+	gate chan struct{}
 }
 
 func (w *world) add(r resource) {
@@ -165,6 +170,12 @@ func (w *world) cur() (attempt, bool) {
 
 // begin starts the next attempt: its pre action, then its acquisition verdict.
 func (w *world) begin() (attempt, bool) {
+	w.mu.Lock()
+	gate := w.gate
+	w.mu.Unlock()
+	if gate != nil {
+		<-gate
+	}
 	w.mu.Lock()
 	if !w.armed || w.next >= len(w.script) {
 		w.next++
@@ -361,12 +372,20 @@ func (w *world) checkpoint(phase int) string {
 
 func (w *world) gather() bool {
 	w.restarted = false
+	gate := make(chan struct{})
+	w.mu.Lock()
+	w.gate = gate
+	w.mu.Unlock()
 	if err := w.agent.GatherCandidates(); err != nil {
+		close(gate)
+
 		return false
 	}
+	// taken while every gatherer attempt of the new cycle is still held at the gate
 	d := ice.VerifGatherDone(w.agent)
+	close(gate)
 	if d == nil {
-		return true
+		return false
 	}
 	select {
 	case <-d:
